@@ -196,6 +196,26 @@ func init() {
 		st.assume("(=> " + exact + " (= " + v.S + " " + ci + "))")
 		return TupleV{v, Term{exact, SBool}}, true
 	}
+	libModels["fmt.Sprintf"] = func(x *Exec, st *State, e *ast.CallExpr, a []Value, _ []types.Type) (Value, bool) {
+		// a pure function of the format and the arguments (uninterpreted, one symbol per sort profile)
+		var ts []Term
+		sig := ""
+		for _, v := range a {
+			t, ok := v.(Term)
+			if !ok {
+				return nil, false
+			}
+			ts = append(ts, t)
+			sig += string(sanitize(string(t.Sort))[0])
+		}
+		return x.uf("lib_sprintf_"+sig, SStr, ts...), true
+	}
+	for _, n := range []string{"constant.Value.ExactString", "constant.Value.String"} {
+		n := n
+		libModels[n] = func(x *Exec, st *State, e *ast.CallExpr, a []Value, _ []types.Type) (Value, bool) {
+			return x.uf("lib_"+n, SStr, asTerm(a[0])), true
+		}
+	}
 	for _, n := range []string{"fmt.Errorf", "errors.New"} {
 		libModels[n] = func(x *Exec, st *State, e *ast.CallExpr, a []Value, _ []types.Type) (Value, bool) {
 			return x.newRef(st, "err"), true // a new, non-nil error value
